@@ -51,8 +51,8 @@ ms = KaniUnit("c17_ms", CORE, modules=[dict(file=MS, text=_t)], harnesses=_h)
 # the per-shape Kani harnesses are kept for the thorough tier only (CBMC needs > 60 s even for a single axis of two values)
 for h in _h:
     h.tier = "thorough"; h.carries = False; h.timeout = 300
-_keep = [h for h in _h if h.name in ("c17_shape1_2_end", "c17_shape1_3_end")]
-ms = KaniUnit("c17_ms", CORE, modules=[dict(file=MS, text=_t), dict(file=MS, src="c12_multiset.rs")],
+_keep = []   # measured: CBMC needs 80 s for shape [2] and exceeds 300 s / the memory cap for every other shape: not registered
+ms = KaniUnit("c17_ms", CORE, modules=[dict(file=MS, src="c12_multiset.rs")],
               exprs=[dict(file=MS, name="c12_final_pos_of", params="len: usize", ret="usize", anchor=r"sets\.iter\(\)\.map\(\|v\| (?P<expr>.*?)\)\.collect\(\)", subst=[("v.len()", "len")])],
               harnesses=_keep)
 ms.native_witnesses = ["c17_wit_multiset_shape_sweep", "c12_wit_multiset_zero_axes_terminates", "c12_wit_multiset_empty_axis_is_empty_product"]
@@ -60,5 +60,5 @@ msv = VerusUnit("c17_multiset", "c17_multiset", rlimit=60, paired_kani=(ms, []))
 UNITS = [msv, ms]
 EXPLANATION = ("MultiSet::from / next extracted and verified by Verus for ANY number of axes and ANY lengths: next() returns the tuple at the current position and moves to the mixed-radix successor (first axis fastest), "
                "None after the last tuple; lemma: each step advances the denoted number by one, the last tuple denotes prod(len)-1 -- hence exactly the Cartesian product, each tuple once, in order. "
-               "The iterator-adapter fragments are assumed helper contracts (listed); a native sweep over all shapes <= 3x3x3 and two single-axis Kani harnesses run in the thorough tier")
+               "The iterator-adapter fragments are assumed helper contracts (listed); a native sweep over all shapes <= 3x3x3 runs in the thorough tier (per-shape Kani harnesses exceeded the time/memory caps and are not registered)")
 NOT_DECIDED = "GridSearchPlugin::process (serde_json): mapping from index tuples to queries, object-valued options; json_array_flatten; shapes beyond the bound; empty axes / zero axes (see C12)"
